@@ -127,6 +127,31 @@ for run in range(2):
     outs.append(raw_bytes(po))
 R.check('injection/seeded-estimate-kept-and-runs-identical', dict(seed=R.seed), kept and len(outs[0]) >= 1 and outs[0] == outs[1], [len(x) for x in outs[0]])
 
+# two *processes* (different string-hash seeds, as two runs of a script have): the recorded files are byte-identical
+import subprocess, hashlib, sys as _sys
+script = '''
+import sys, hashlib, glob, warnings
+warnings.filterwarnings("ignore")
+sys.path.insert(0, sys.argv[1])
+import setigen as stg
+a = stg.voltage.Antenna(sample_rate=3e6, fch1=6e9, ascending=True, num_pols=2, seed=int(sys.argv[3]))
+for s in a.streams:
+    s.add_noise(0, 1); s.add_constant_signal(f_start=6.0005e9, drift_rate=2, level=0.1)
+be = stg.voltage.RawVoltageBackend(a, digitizer=stg.voltage.RealQuantizer(target_fwhm=32, num_bits=8), filterbank=stg.voltage.PolyphaseFilterbank(num_taps=4, num_branches=16),
+                                   requantizer=stg.voltage.ComplexQuantizer(target_fwhm=32, num_bits=8), start_chan=0, num_chans=4, block_size=4 * 2 * 2 * 32, blocks_per_file=2, num_subblocks=2)
+be.record(output_file_stem=sys.argv[2], num_blocks=3, length_mode="num_blocks", header_dict={"TELESCOP": "GBT"}, verbose=False)
+h = hashlib.sha256()
+for p in sorted(glob.glob(sys.argv[2] + ".*.raw")):
+    h.update(open(p, "rb").read())
+print(h.hexdigest())
+'''
+digests = []
+for hs in ('1', '2', '3'):
+    stem = os.path.join(R.tmp, 'proc' + hs)
+    pr = subprocess.run([_sys.executable, '-c', script, REPO, stem, str(R.seed + 9)], capture_output=True, text=True, env=dict(os.environ, PYTHONHASHSEED=hs), timeout=600)
+    digests.append(pr.stdout.strip().splitlines()[-1] if pr.returncode == 0 and pr.stdout.strip() else 'ERROR ' + pr.stderr[-200:])
+R.check('record/identical-files-from-separate-processes', dict(hash_seeds=[1, 2, 3]), len(set(digests)) == 1 and not digests[0].startswith('ERROR'), digests)
+
 # copies
 base = stg.Frame(fchans=64, tchans=8, df=2.79 * u.Hz, dt=18.25 * u.s, fch1=6095.2 * u.MHz, seed=R.seed + 3)
 base.add_noise(5)
